@@ -37,17 +37,7 @@ Lemma length_filter_flat_map {A B} (p : B -> bool) (g : A -> list B) l :
   length (filter p (flat_map g l)) = list_sum (map (fun a => length (filter p (g a))) l).
 Proof. induction l as [|a l IH]; simpl; [reflexivity|]. rewrite filter_app, app_length, IH. reflexivity. Qed.
 
-(* ---------- Leibniz equality on values, decidable ---------- *)
-Definition atom_eqb (a b : atom) : bool :=
-  match a, b with
-  | AInt x, AInt y => Z.eqb x y
-  | ABool x, ABool y => Bool.eqb x y
-  | ANone, ANone => true
-  | AStr s, AStr t => String.eqb s t
-  | AObj o, AObj p => Nat.eqb o p
-  | ATup l, ATup m => zs_eqb l m
-  | _, _ => false
-  end.
+(* ---------- Leibniz equality on values, decidable (definitions: Values.v) ---------- *)
 Lemma zs_eqb_eq l : forall m, zs_eqb l m = true <-> l = m.
 Proof.
   induction l as [|x l IH]; intros [|y m]; cbn [zs_eqb]; split; intros H; try discriminate; try reflexivity.
@@ -68,20 +58,12 @@ Proof.
   - apply zs_eqb_eq in H. now subst.
   - injection H as ->. now apply zs_eqb_eq.
 Qed.
-Fixpoint atoms_eqb (l m : list atom) : bool :=
-  match l, m with
-  | [], [] => true
-  | a :: l', b :: m' => atom_eqb a b && atoms_eqb l' m'
-  | _, _ => false
-  end.
 Lemma atoms_eqb_eq l : forall m, atoms_eqb l m = true <-> l = m.
 Proof.
   induction l as [|a l IH]; intros [|b m]; cbn; split; intros H; try discriminate; try reflexivity.
   - apply andb_prop in H as [H1 H2]. apply atom_eqb_eq in H1. apply IH in H2. now subst.
   - injection H as -> ->. apply andb_true_intro. split; [now apply atom_eqb_eq | now apply IH].
 Qed.
-Definition val_eqb (v w : val) : bool :=
-  match v, w with VA a, VA b => atom_eqb a b | VTup l, VTup m => atoms_eqb l m | _, _ => false end.
 Lemma val_eqb_eq v w : val_eqb v w = true <-> v = w.
 Proof.
   destruct v as [a|l], w as [b|m]; cbn; split; intros H; try discriminate.
